@@ -93,4 +93,36 @@ func c08PhaseFacts(l *lean) {
 		})
 	}
 	l.def("startCounterInit", "List String", leanStrList(sc), sc)
+	c08RepairFaultFacts(l)
+}
+
+// checkPage's write transaction: its options (no OnRollback), what happens after it returned; writeWithoutLock's head
+func c08RepairFaultFacts(l *lean) {
+	tfset, ts := parseFile("network/dag/treestore.go")
+	head := []string{"MISSING"}
+	if fn := c08Method(ts, "treeStore", "writeWithoutLock"); fn != nil && fn.Body != nil {
+		head = c08StmtsSrc(tfset, fn.Body.List, 3)
+	}
+	l.def("writeWithoutLockHead", "List String", leanStrList(head), head)
+	cfset, cs := parseFile("network/dag/consistency.go")
+	opts, after := []string{"MISSING"}, []string{"MISSING"}
+	if fn := c08Method(cs, "xorTreeRepair", "checkPage"); fn != nil && fn.Body != nil {
+		for i, s := range fn.Body.List {
+			as, ok := s.(*ast.AssignStmt)
+			if !ok || len(as.Rhs) != 1 {
+				continue
+			}
+			c, ok := as.Rhs[0].(*ast.CallExpr)
+			if !ok || exprString(c.Fun) != "f.state.graph.db.Write" {
+				continue
+			}
+			opts = []string{}
+			for _, a := range c.Args[2:] {
+				opts = append(opts, c08Src(cfset, a))
+			}
+			after = c08StmtsSrc(cfset, fn.Body.List[i+1:], 0)
+		}
+	}
+	l.def("checkPageWriteOptions", "List String", leanStrList(opts), opts)
+	l.def("checkPageAfterWrite", "List String", leanStrList(after), after)
 }
